@@ -1,0 +1,38 @@
+//go:build verif
+
+package protocol
+
+import (
+	"errors"
+	"net"
+	"time"
+)
+
+// Behavioural probe for the external verification harness (property C02). Add-only; compiled only with -tags verif.
+
+type verifC02ProbeConn struct{ bufLen int }
+
+var errVerifC02Probe = errors.New("verif probe")
+
+func (c *verifC02ProbeConn) ReadFrom(b []byte) (int, net.Addr, error) {
+	c.bufLen = len(b)
+	return 0, nil, errVerifC02Probe
+}
+func (c *verifC02ProbeConn) WriteTo(b []byte, addr net.Addr) (int, error) { return len(b), nil }
+func (c *verifC02ProbeConn) Close() error                                 { return nil }
+func (c *verifC02ProbeConn) LocalAddr() net.Addr                          { return &net.UDPAddr{} }
+func (c *verifC02ProbeConn) SetDeadline(t time.Time) error                { return nil }
+func (c *verifC02ProbeConn) SetReadDeadline(t time.Time) error            { return nil }
+func (c *verifC02ProbeConn) SetWriteDeadline(t time.Time) error           { return nil }
+
+// VerifC02ReadBufferLen runs PacketUnderlay.readOneSegment of an underlay configured with the given LOCAL mtu once
+// and returns the length of the buffer it hands to ReadFrom, i.e. the largest datagram it can receive untruncated.
+func VerifC02ReadBufferLen(mtu int, isClient bool) int {
+	pc := &verifC02ProbeConn{}
+	u := &PacketUnderlay{conn: pc}
+	u.isClient = isClient
+	u.mtu = mtu
+	u.done = make(chan struct{})
+	u.readOneSegment()
+	return pc.bufLen
+}
